@@ -135,7 +135,9 @@ partial def main (args : List String) : IO UInt32 := do
     let mut lastFe := 0
     -- the side conditions of C07's soundness theorem (Props/C07 `verify_sound_partial`: `StepOk`), checked on every replayed step of
     -- a module that verifies: live frame records followed beside the machine (`ghostNext`), `stepOkB` per step
-    let hmOpt : Option Never.Ver.HMap := match Never.Ver.verifyH md0 with | .ok (_, hm) => some hm | .error _ => none
+    -- (only when NMDRV_STEPOK is set: the check walks all live records on every step, checks/c07.py asks for it)
+    let sideOn := (← IO.getEnv "NMDRV_STEPOK").isSome
+    let hmOpt : Option Never.Ver.HMap := if !sideOn then none else match Never.Ver.verifyH md0 with | .ok (_, hm) => some hm | .error _ => none
     let mut recs : List Never.Ver.Rec := []
     let mut sideChecked : Nat := 0
     let mut sideFails : Nat := 0
@@ -194,7 +196,7 @@ partial def main (args : List String) : IO UInt32 := do
     IO.println s!"steps {steps}"
     match hmOpt with
     | some _ => IO.println s!"stepok checked={sideChecked} fails={sideFails} live_at_end={recs.length}{match sideFirst with | some f => " first: " ++ f | none => ""}"
-    | none => IO.println "stepok module-not-verified"
+    | none => if sideOn then IO.println "stepok module-not-verified"
     match diverged with | some d => IO.println s!"DIVERGE {d}" | none => pure ()
     match stop with | some s => IO.println s!"stop {s}" | none => pure ()
     if diverged.isNone ∧ stop.isNone ∧ traceActive ∧ cur.isSome then IO.println s!"DIVERGE trace has more lines than the model executed: {cur.getD ""}"
